@@ -41,10 +41,17 @@ class Searches:
         needle_type = type(typed_needle)
         matches: bool = False
 
+        # Python's bool is a subclass of int but a boolean term is not a
+        # number:  never compare it numerically with a non-boolean value.
+        if needle_type is bool and not isinstance(typed_haystack, bool):
+            typed_needle = needle
+
         if method is PathSearchMethods.EQUALS:
             if isinstance(typed_haystack, bool) and needle_type is bool:
                 matches = typed_haystack == typed_needle
-            elif isinstance(typed_haystack, int) and needle_type is int:
+            elif (isinstance(typed_haystack, int)
+                  and not isinstance(typed_haystack, bool)
+                  and needle_type is int):
                 matches = typed_haystack == typed_needle
             elif isinstance(typed_haystack, float) and needle_type is float:
                 matches = typed_haystack == typed_needle
